@@ -150,6 +150,31 @@ def ring_from_polygon(pts):
     return Lattice(pts - cell, e, c)
 
 
+def big_ring(rng):
+    """a large simple polygon (star-shaped, radii 0.3 .. 0.49, 9 .. 16 corners): corners lie more than half a cell from the centroid, so nothing that
+    assumes 'a plaquette is small compared with the cell' (nearest-image unwrapping about the centre) holds for it"""
+    n = int(rng.integers(9, 17))
+    ang = np.sort(rng.uniform(0, 2 * np.pi, size=n))
+    while np.max(np.diff(np.concatenate([ang, [ang[0] + 2 * np.pi]]))) > 1.2:
+        ang = np.sort(rng.uniform(0, 2 * np.pi, size=n))
+    r = rng.uniform(0.3, 0.49, size=n)
+    c = rng.uniform(0, 1, size=2)
+    return ring_from_polygon(c + np.stack([r * np.cos(ang), r * np.sin(ang)], axis=1))
+
+
+def sheared(l, k=2):
+    """the same lattice in the sheared cell x -> x + k*y (an equally good fundamental domain of the same torus): positions mod 1, crossings recomputed"""
+    P, E, C = raw(l)
+    Q = np.stack([P[:, 0] + k * P[:, 1], P[:, 1]], axis=1)
+    cell = np.floor(Q).astype(int)
+    # edge vector in the new coordinates: (vx + k*vy, vy); crossing = vector - (end - start) in wrapped positions
+    v = l.edges.vectors
+    nv = np.stack([v[:, 0] + k * v[:, 1], v[:, 1]], axis=1)
+    W = Q - cell
+    nc = np.round(nv - (W[E[:, 1]] - W[E[:, 0]])).astype(int)
+    return Lattice(W, E, nc)
+
+
 def star_ring(rng, n=None, centre=None):
     """a random *non-convex* simple polygon (star-shaped about its centre, radii varying by a factor of up to eight) placed across the cell walls: a wall that
     misses the centre meets its boundary four, six, ... times - the only plaquettes for which 'crosses a wall' and 'crosses it exactly twice' differ.
